@@ -214,6 +214,12 @@ func cmdRun(id, tier string) int {
 			incon = append(incon, err.Error())
 		}
 	} else {
+		// the CLI binary is built once from the current tree and shared by the shards
+		if cli, err := cliBinary(e); err == nil {
+			os.Setenv("VERIF_CLI", cli)
+		} else {
+			incon = append(incon, err.Error())
+		}
 		timeout := 12 * time.Minute
 		if tier == "thorough" {
 			timeout = 40 * time.Minute
@@ -269,6 +275,12 @@ func finish(e *Env, c *Check, r *res.Result, wall time.Duration) int {
 					fmt.Printf("KNOWN-FINDING: property=%s id=%s %s\n", e.ID, ke.ID, ke.Text)
 				}
 			}
+		}
+	}
+	if p := os.Getenv("VERIF_DUMP_LISTS"); p != "" {
+		for k, v := range r.Lists {
+			sort.Strings(v)
+			os.WriteFile(p+"."+k, []byte(strings.Join(v, "\n")+"\n"), 0o644)
 		}
 	}
 	distinct := r.Distinct()
